@@ -1665,28 +1665,43 @@ impl<'a> HistoryIterator<'a> {
 
 	// === BACKWARD ITERATION (Buffered) ===
 
+	/// Load the previous user key that has something to list.
+	///
+	/// A user key with nothing to list - erased by a hard delete, only filtered
+	/// tombstones, no version visible to the snapshot, outside the upper bound -
+	/// does not end the traversal: the keys before it are still to come.
+	fn collect_user_key_backward(&mut self) -> Result<bool> {
+		loop {
+			if let Some(done) = self.collect_one_user_key_backward()? {
+				return Ok(done);
+			}
+		}
+	}
+
 	/// Collect all visible versions of current user key, apply filtering,
 	/// and populate backward_buffer.
 	///
 	/// After this call, inner iterator is at previous user key (or invalid).
-	fn collect_user_key_backward(&mut self) -> Result<bool> {
+	/// Returns `Some(true)` when entries were buffered, `Some(false)` at the end
+	/// of the traversal (or the limit), `None` when this key has nothing to list.
+	fn collect_one_user_key_backward(&mut self) -> Result<Option<bool>> {
 		self.backward_buffer.clear();
 
 		if !self.inner_valid() {
-			return Ok(false);
+			return Ok(Some(false));
 		}
 
 		let user_key = self.inner_key().user_key().to_vec();
 
 		if !self.user_key_within_lower_bound(&user_key) {
-			return Ok(false);
+			return Ok(Some(false));
 		}
 
 		if !self.user_key_within_upper_bound(&user_key) {
 			while self.inner_valid() && self.inner_key().user_key() == user_key.as_slice() {
 				self.inner_prev()?;
 			}
-			return self.collect_user_key_backward();
+			return Ok(None);
 		}
 
 		// Collect all visible versions
@@ -1731,7 +1746,7 @@ impl<'a> HistoryIterator<'a> {
 		}
 
 		if versions.is_empty() {
-			return Ok(false);
+			return Ok(None);
 		}
 
 		// versions are in seq_num ASC order (oldest first, newest last)
@@ -1740,7 +1755,7 @@ impl<'a> HistoryIterator<'a> {
 
 		// Rule 1: HARD_DELETE as latest → skip entire key
 		if latest.is_hard_delete {
-			return Ok(false);
+			return Ok(None);
 		}
 
 		// Rule 2: Find first barrier from newest (search from end to start)
@@ -1787,7 +1802,7 @@ impl<'a> HistoryIterator<'a> {
 		}
 
 		if self.backward_buffer.is_empty() {
-			return Ok(false);
+			return Ok(None);
 		}
 
 		// Truncate buffer to respect limit
@@ -1796,7 +1811,7 @@ impl<'a> HistoryIterator<'a> {
 			if remaining == 0 {
 				self.backward_buffer.clear();
 				self.limit_reached = true;
-				return Ok(false);
+				return Ok(Some(false));
 			}
 			if self.backward_buffer.len() > remaining {
 				self.backward_buffer.truncate(remaining);
@@ -1810,7 +1825,7 @@ impl<'a> HistoryIterator<'a> {
 		// Start yielding from index 0 (oldest in valid range)
 		self.backward_buffer_index = Some(0);
 
-		Ok(true)
+		Ok(Some(true))
 	}
 
 	fn advance_backward(&mut self) -> Result<bool> {
